@@ -461,3 +461,12 @@ def check(ctx):
     sub = type(ctx)(ctx.pid, ctx.an, ctx.tier)
     c07.check(sub)
     ctx.obligations.extend(o for o in sub.obligations if o.rule.split(".", 1)[1].split(".")[0] in ("verbatim", "generated-is-written-is-returned", "generated-length"))
+    # "the recorded method is always a concrete one": what SecureField writes next to the ciphertext is the method the encryption
+    # actually used (shared with C03.1 / C03.2)
+    if getattr(ctx, "_shared_from", None) != "C03":
+        from . import c03
+        sub3 = type(ctx)(ctx.pid, ctx.an, ctx.tier)
+        sub3._shared_from = "C08"
+        c03.check(sub3)
+        ctx.obligations.extend(o for o in sub3.obligations if o.rule.split(".", 1)[1].startswith(("method.recorded-from-result", "method.encrypt-uses-resolved",
+                                                                                                  "ciphertext.from-result", "shape.secure-basic")))
